@@ -6,7 +6,7 @@ import copy
 import json
 
 from hypothesis import strategies as st
-from pyxform.builder import create_survey_element_from_dict
+from pyxform.builder import create_survey_element_from_dict, create_survey_element_from_json
 from pyxform.errors import PyXFormError
 from pyxform.xls2json import workbook_to_json
 from pyxform.xls2json_backends import get_xlsform
@@ -28,8 +28,21 @@ BUDGET = {"quick": 10000, "thorough": 300000}
 @st.composite
 def _cases(draw):
     prof = dict(gen.PROFILES["broad"], p_group_logic=0.5, p_extra_cols=0.5, p_params=0.6, p_multilang=0.6, p_media=0.2,
-                settings="some", p_entities=0.2, p_trigger=0.1, p_choice_media=0.2, p_or_other=0.15, p_choice_filter=0.3)
-    return {"form": gen.build_form(draw, prof)}
+                settings="some", p_entities=0.2, p_trigger=0.15, p_choice_media=0.2, p_or_other=0.15, p_choice_filter=0.3,
+                extra_col_names=["parent", "e0", "kind", "extra_data"], p_hint=0.4)
+    g = gen.G(draw, prof)
+    form = gen.build_form(draw, prof, g=g)
+    # the type dictionary's legacy entries (some carry a default hint or bind of their own)
+    for n, _ in model.walk(form["nodes"]):
+        if n["k"] == "q" and n["c"].get("type") == "text" and g.p("_", 0.06):
+            n["c"]["type"] = g.pick(LEGACY_TYPES)
+            for k in [k for k in n["c"] if k.split("::")[0] in ("hint", "guidance_hint", "parameters", "appearance", "default")]:
+                del n["c"][k]
+    return {"form": form}
+
+
+LEGACY_TYPES = ["phone number", "number of days in last month", "number of days in last six months", "number of days in last year",
+                "percentage", "add text prompt", "add integer prompt", "add decimal prompt", "q string", "q int", "string", "add note prompt"]
 
 
 def strategy(tier):
@@ -103,6 +116,12 @@ def evaluate(case) -> Outcome:
             if x3 != direct:
                 k, d = diff_kind(direct, x3)
                 out.fail("C16.rt2", k, d)
+            # the JSON-text loader is the documented way back in
+            out.checked("C16.rt2-json-loader")
+            x5 = create_survey_element_from_json(t1).to_xml(validate=False, pretty_print=False)
+            if x5 != direct:
+                k, d = diff_kind(direct, x5)
+                out.fail("C16.rt2-json-loader", k, d)
             # (3) dump - load - dump stability
             out.checked("C16.stable")
             s4 = create_survey_element_from_dict(json.loads(t1))
@@ -117,7 +136,7 @@ def evaluate(case) -> Outcome:
             feats.append("section-logic")
         if "parameters" in n["c"]:
             feats.append("parameters")
-    if any(k.startswith("e") for lst in form.get("lists", []) for r in lst["rows"] for k in r):
+    if any(k.startswith("e") or k in ("parent", "kind") for lst in form.get("lists", []) for r in lst["rows"] for k in r):
         feats.append("extra-choice-col")
     if len(form.get("_langs", [])) >= 2:
         feats.append("multi-lang")
